@@ -1015,3 +1015,207 @@ func StructOfForm(g any) (T, error) {
 
 // StructForm is the type-directed form of a T.
 func StructForm(x T) M { return structForm(x) }
+
+// ---- containers reached through an addressable parent (Bridge!DocMutate, DocPtrCall) ----------
+
+// Inner and Doc: a struct bridged by pointer whose fields are slices, a nested
+// struct by value, a pointer to a struct, an array, a slice and an array of
+// structs and a slice of slices (abstract value [k |-> "doc", ...]).
+type Inner struct {
+	Tags  []string
+	Sizes []int8
+	N     int
+}
+
+type Doc struct {
+	Title string
+	Tags  []string
+	Sizes []int8
+	Any   []interface{}
+	In    Inner
+	PIn   *Inner
+	Arr   [2]int8
+	SIn   []Inner
+	AIn   [2]Inner
+	Grid  [][]int8
+}
+
+func exactSlice(rv reflect.Value) reflect.Value {
+	// capacity = length, so that growth always reallocates (as the specification assumes)
+	ns := reflect.MakeSlice(rv.Type(), rv.Len(), rv.Len())
+	reflect.Copy(ns, rv)
+	return ns
+}
+
+func buildSeq(items any, t reflect.Type) (reflect.Value, error) {
+	a, _ := items.([]any)
+	s := reflect.MakeSlice(reflect.SliceOf(t), len(a), len(a))
+	for i, it := range a {
+		v, err := BuildAs(it, t)
+		if err != nil {
+			return reflect.Value{}, err
+		}
+		s.Index(i).Set(v)
+	}
+	return s, nil
+}
+
+func buildInner(g any) (Inner, error) {
+	m, ok := g.(map[string]any)
+	if !ok {
+		return Inner{}, fmt.Errorf("bad inner form %v", g)
+	}
+	var in Inner
+	tags, err := buildSeq(m["Tags"], kindTypes["string"])
+	if err != nil {
+		return in, err
+	}
+	sizes, err := buildSeq(m["Sizes"], kindTypes["int8"])
+	if err != nil {
+		return in, err
+	}
+	z, err := BigOfZ(m["N"])
+	if err != nil {
+		return in, err
+	}
+	in.Tags, in.Sizes, in.N = tags.Interface().([]string), sizes.Interface().([]int8), int(z.Int64())
+	return in, nil
+}
+
+// BuildDoc builds the *Doc an abstract doc value denotes.
+func BuildDoc(g any) (*Doc, error) {
+	m, ok := g.(map[string]any)
+	if !ok || m["k"] != "doc" {
+		return nil, fmt.Errorf("bad doc form %v", g)
+	}
+	d := &Doc{Title: StringOfUnits(m["Title"])}
+	tags, err := buildSeq(m["Tags"], kindTypes["string"])
+	if err != nil {
+		return nil, err
+	}
+	sizes, err := buildSeq(m["Sizes"], kindTypes["int8"])
+	if err != nil {
+		return nil, err
+	}
+	anys, err := buildSeq(m["Any"], kindTypes["iface"])
+	if err != nil {
+		return nil, err
+	}
+	d.Tags, d.Sizes, d.Any = tags.Interface().([]string), sizes.Interface().([]int8), anys.Interface().([]interface{})
+	if d.In, err = buildInner(m["In"]); err != nil {
+		return nil, err
+	}
+	pin, err := buildInner(m["PIn"])
+	if err != nil {
+		return nil, err
+	}
+	d.PIn = &pin
+	arr, err := buildSeq(m["Arr"], kindTypes["int8"])
+	if err != nil || arr.Len() != 2 {
+		return nil, fmt.Errorf("bad Arr: %v", err)
+	}
+	d.Arr = [2]int8{int8(arr.Index(0).Int()), int8(arr.Index(1).Int())}
+	for _, x := range m["SIn"].([]any) {
+		in, err := buildInner(x)
+		if err != nil {
+			return nil, err
+		}
+		d.SIn = append(d.SIn, in)
+	}
+	d.SIn = exactSlice(reflect.ValueOf(d.SIn)).Interface().([]Inner)
+	ain, _ := m["AIn"].([]any)
+	if len(ain) != 2 {
+		return nil, fmt.Errorf("AIn needs 2 elements")
+	}
+	for i, x := range ain {
+		if d.AIn[i], err = buildInner(x); err != nil {
+			return nil, err
+		}
+	}
+	for _, row := range m["Grid"].([]any) {
+		r, err := buildSeq(row, kindTypes["int8"])
+		if err != nil {
+			return nil, err
+		}
+		d.Grid = append(d.Grid, r.Interface().([]int8))
+	}
+	d.Grid = exactSlice(reflect.ValueOf(d.Grid)).Interface().([][]int8)
+	return d, nil
+}
+
+func seqForm(rv reflect.Value) []any {
+	out := []any{}
+	for i := 0; i < rv.Len(); i++ {
+		out = append(out, ProjectAs(rv.Index(i), rv.Type().Elem()))
+	}
+	return out
+}
+
+func innerForm(in Inner) M {
+	return M{"Tags": seqForm(reflect.ValueOf(in.Tags)), "Sizes": seqForm(reflect.ValueOf(in.Sizes)), "N": ZOfInt64(int64(in.N))}
+}
+
+// DocForm projects a *Doc into its abstract form.
+func DocForm(d *Doc) any {
+	if d == nil {
+		return M{"k": "nildoc"}
+	}
+	pin := any(M{"k": "nil"})
+	if d.PIn != nil {
+		pin = innerForm(*d.PIn)
+	}
+	sin := []any{}
+	for _, in := range d.SIn {
+		sin = append(sin, innerForm(in))
+	}
+	grid := []any{}
+	for _, row := range d.Grid {
+		grid = append(grid, seqForm(reflect.ValueOf(row)))
+	}
+	return M{"k": "doc", "Title": Units(d.Title), "Tags": seqForm(reflect.ValueOf(d.Tags)), "Sizes": seqForm(reflect.ValueOf(d.Sizes)),
+		"Any": seqForm(reflect.ValueOf(d.Any)), "In": innerForm(d.In), "PIn": pin, "Arr": seqForm(reflect.ValueOf(d.Arr)),
+		"SIn": sin, "AIn": []any{innerForm(d.AIn[0]), innerForm(d.AIn[1])}, "Grid": grid}
+}
+
+// DocPath gives the script text that selects the nested container sel of the doc denoted by X.
+func DocPath(X, sel string) (string, error) {
+	p, ok := map[string]string{
+		"Tags": ".Tags", "Sizes": ".Sizes", "Any": ".Any", "In.Tags": ".In.Tags", "In.Sizes": ".In.Sizes",
+		"PIn.Tags": ".PIn.Tags", "PIn.Sizes": ".PIn.Sizes", "Grid0": ".Grid[0]", "Grid1": ".Grid[1]",
+		"SIn0.Tags": ".SIn[0].Tags", "AIn0.Tags": ".AIn[0].Tags",
+		"In": ".In", "PIn": ".PIn", "Arr": ".Arr", "SIn0": ".SIn[0]", "AIn0": ".AIn[0]",
+	}[sel]
+	if !ok {
+		return "", fmt.Errorf("unknown selector %q", sel)
+	}
+	return X + p, nil
+}
+
+// PlaceDoc sets the doc into the runtime as x: directly, as the element of a []*Doc or as a value of a map[string]*Doc;
+// it returns the script expression denoting the doc.
+func PlaceDoc(vm *otto.Otto, where string, d *Doc) (string, error) {
+	switch where {
+	case "ptr":
+		return "x", vm.Set("x", d)
+	case "inslice":
+		return "x[0]", vm.Set("x", []*Doc{d})
+	case "inmap":
+		return "x.k", vm.Set("x", map[string]*Doc{"k": d})
+	}
+	return "", fmt.Errorf("unknown placement %q", where)
+}
+
+// ExportedDoc finds the *Doc inside what Export returned for x.
+func ExportedDoc(where string, e interface{}) *Doc {
+	switch v := e.(type) {
+	case *Doc:
+		return v
+	case []*Doc:
+		if len(v) == 1 {
+			return v[0]
+		}
+	case map[string]*Doc:
+		return v["k"]
+	}
+	return nil
+}
